@@ -11,14 +11,17 @@
       any other class leaves `main`);
     * the reads of the spec file, the target file and standard input (`_read_stdin`): a failing
       read whose class the enclosing `except` names → UsageError, any other class leaves `main`;
-    * `glom_cli` → `glomCli` (GlomError → `Class: message` + return 1; `indent 0 → None`; `--scalar`);
-    * `main` → `cliMain` (`cmd.run(argv) or 0`; UsageError leaves `main` as the SystemExit
-      subclass face raises).
+    * `glom_cli` → `glomCli` (`--debug` / `--inspect` wrap the spec in `Inspect(…)` with
+      `breakpoint` / `post_mortem` only while standard input is open; GlomError → `Class: message`
+      + return 1; `indent 0 → None`; `--scalar`);
+    * `main` → `cliMain` on the parsed flags (`cmd.run(argv) or 0`; UsageError leaves `main` as the
+      SystemExit subclass face raises); `main` on the RAW argument list is `cliMainArgv` of
+      Model/C19Face.lean (face's parser for the extracted option table, then `cliMain`).
 
-  The JSON / YAML / TOML parsers, `ast.literal_eval`, `repr`, the library call `glom.glom`,
-  `json.dumps`, `is_scalar`, `print`'s `str()` and the file system are PARAMETERS (`Ext`):
-  trusted, exercised by the correspondence only.  `face`'s argument parsing is not modelled:
-  the model starts from the parsed flags.
+  The JSON / YAML / TOML parsers, `ast.literal_eval`, `repr`, `int()`, the library call
+  `glom.glom` (and what it prints: `Inspect`'s echo), `Inspect(…)`, `json.dumps`, `is_scalar`,
+  `print`'s `str()`, the help text and the file system are PARAMETERS (`Ext`): trusted, exercised
+  by the correspondence only.
 -/
 namespace Glom.C19
 
@@ -60,6 +63,13 @@ structure Ext (T S R : Type) where
   readFile : String → Option String            -- `open(p).read()` (text mode); `none` = it raised
   readErr : String → String                    -- the class `open(p).read()` raised (FileNotFoundError, IsADirectoryError, UnicodeDecodeError …)
   mro : String → List String                   -- names of the classes in the MRO of an exception class (Python's hierarchy)
+  inspect : S → Bool → Bool → Bool → Bool → S  -- `Inspect(spec, echo=…, recursive=…, breakpoint=…, post_mortem=…)`
+  printed : T → S → String                     -- what `glom.glom(target, spec)` itself writes to stdout (Inspect's echo; nothing otherwise)
+  parseInt : String → Option Int               -- `int(text)`; `none` = it raised
+  helpText : String                            -- what the help handler prints
+  flagfile : String → Except String (List (Except String (List String)))
+                                               -- `--flagfile PATH`: the class the read raised | per line: the class `shlex.split` raised | its tokens
+  abspath : String → String                    -- `os.path.abspath`
 
 structure Argv where
   posargs : List String
@@ -69,12 +79,15 @@ structure Argv where
   specFormat : Option String
   indent : Option Int
   scalar : Bool
+  debug : Bool := false
+  inspect : Bool := false
   deriving DecidableEq, Repr
 
 structure World where
   stdin : String
   stdinTty : Bool
   stdinErr : Option String           -- the class `sys.stdin.read()` raises (undecodable bytes: UnicodeDecodeError); none = readable
+  stdinOpen : Bool := true           -- `not sys.stdin.closed`
   deriving DecidableEq, Repr
 
 inductive Usage where
@@ -83,11 +96,32 @@ inductive Usage where
   | loadError (cls : String)
   deriving DecidableEq, Repr
 
+/-- why face rejected the command line (`ArgumentParseError` → `CommandLineError`) -/
+inductive CliErr where
+  | emptyArgv | unknownFlag | invalidFlagArg | missingFlagArg | duplicateFlag
+  | tooManyPosargs | postPosargs
+  | flagfileUnreadable | flagfileExtraArgs
+  deriving DecidableEq, Repr
+
 inductive Outcome where
   | exit (code : Nat) (stdout : String)
   | usage (u : Usage)                -- UsageError (a SystemExit with code 1, message on stderr)
+  | cli (e : CliErr)                 -- CommandLineError raised by face for a malformed command line (SystemExit, code 1)
   | exc (cls : String)               -- another exception leaves `main`
   deriving DecidableEq, Repr
+
+/-- the status of the process (`console_main`: `sys.exit(main(sys.argv) or 0)`; a SystemExit
+    subclass carries its code, 1; an uncaught exception ends the interpreter with 1) -/
+def Outcome.status : Outcome → Nat
+  | .exit c _ => c
+  | .usage _ => 1
+  | .cli _ => 1
+  | .exc _ => 1
+
+/-- what is on standard output when the process ends (errors go to stderr) -/
+def Outcome.stdout : Outcome → String
+  | .exit _ s => s
+  | _ => ""
 
 /-- Python truthiness of `None` / a str -/
 def truthy : Option String → Bool
@@ -184,23 +218,31 @@ def handleTarget (F : Facts) (X : Ext T S R) (text : Option String) (fmt : Strin
     | none => .error (.usage .badTargetFormat)
     | some (_, loader) => liftLoad X (catchOf F fmt) (X.load loader (text.getD ""))
 
-/-- `glom_cli` (without --debug / --inspect) -/
-def glomCli (X : Ext T S R) (target : T) (spec : S) (indent : Int) (scalar : Bool) : Outcome :=
+/-- `if debug or inspect: spec = Inspect(spec, echo=inspect, recursive=inspect,
+    breakpoint=inspect and stdin_open, post_mortem=debug and stdin_open)` -/
+def wrapSpec (X : Ext T S R) (stdinOpen : Bool) (spec : S) (debug inspect : Bool) : S :=
+  if debug || inspect then X.inspect spec inspect inspect (inspect && stdinOpen) (debug && stdinOpen) else spec
+
+/-- `glom_cli` -/
+def glomCli (X : Ext T S R) (stdinOpen : Bool) (target : T) (spec : S) (indent : Int)
+    (debug inspect scalar : Bool) : Outcome :=
+  let spec := wrapSpec X stdinOpen spec debug inspect
+  let pre := X.printed target spec        -- whatever the library call printed comes first
   match X.glom target spec with
-  | .glomError cls msg => .exit 1 (cls ++ ": " ++ msg ++ "\n")
+  | .glomError cls msg => .exit 1 (pre ++ (cls ++ ": " ++ msg ++ "\n"))
   | .other cls => .exc cls
   | .ok r =>
     let indent' : Option Int := if indent == 0 then none else some indent
-    if scalar && X.isScalar r then .exit 0 (X.str r)
+    if scalar && X.isScalar r then .exit 0 (pre ++ X.str r)
     else match X.dumps r indent' with
-      | .ok s => .exit 0 (s ++ "\n")
+      | .ok s => .exit 0 (pre ++ (s ++ "\n"))
       | .error c => .exc c
 
 /-- `next_(spec=spec, target=target)`: the handler runs once the middleware has both -/
-def runWith (F : Facts) (X : Ext T S R) (a : Argv) (spec : S) (target : Except Outcome T) : Outcome :=
+def runWith (F : Facts) (X : Ext T S R) (a : Argv) (w : World) (spec : S) (target : Except Outcome T) : Outcome :=
   match target with
   | .error o => o
-  | .ok t => glomCli X t spec (a.indent.getD F.indentDefault) a.scalar
+  | .ok t => glomCli X w.stdinOpen t spec (a.indent.getD F.indentDefault) a.debug a.inspect a.scalar
 
 /-- `main(argv)` after face parsed the flags: middleware, then the handler -/
 def cliMain (F : Facts) (X : Ext T S R) (a : Argv) (w : World) : Outcome :=
@@ -209,7 +251,7 @@ def cliMain (F : Facts) (X : Ext T S R) (a : Argv) (w : World) : Outcome :=
   | .ok spec =>
     match getTargetText F X a w with
     | .error o => o
-    | .ok text => runWith F X a spec (handleTarget F X text (a.targetFormat.getD F.targetDefault))
+    | .ok text => runWith F X a w spec (handleTarget F X text (a.targetFormat.getD F.targetDefault))
 
 /-! ### the extracted call graph -/
 
